@@ -166,13 +166,16 @@ func timeCheck(r *ev.Run, relaxed bool) {
 		id = "C17"
 	}
 	if relaxed {
-		r.Rule = "for each of GPS, Galileo, GLONASS, BeiDou: start time T in {week start, +1 ms, +1 s, Wednesday noon, week end -1 s, -1 ms} of a constellation week, each in 4 time zones; first observation u in {week start, +1 ms, Wednesday noon, week end -1 ms, T-1 h, T-1 s, T-1 ms, T, T+1 ms, T+1 h} restricted to the same week (so u<T, u=T and u>T all occur); then every history of depth <=2 (quick) / <=3 (thorough) further messages of any constellation with the C06 step menu; messages are CRC-valid header-only MSM4/MSM7 frames through handler.GetMessage; both log levels. Oracle: SentAt and StartOfWeek parsed with the public DateLayout equal the model's instant and week start. Non-trivial = histories whose first observation differs from T; distinct = distinct (T, history)"
+		r.Rule = "for each of GPS, Galileo, GLONASS, BeiDou: start time T in {week start, +1 ms, +1 s, Wednesday noon, week end -1 s, -1 ms} of a constellation week, each in 4 time zones, in the week of 2023-05-10 and, with three start times each, in weeks of June 2013 and July 2010 (civil Moscow time UTC+4) and the 2019/2020 year end; first observation u in {week start, +1 ms, Wednesday noon, week end -1 ms, T-1 h, T-1 s, T-1 ms, T, T+1 ms, T+1 h} restricted to the same week (so u<T, u=T and u>T all occur); then every history of depth <=2 (quick) / <=3 (thorough) further messages of any constellation with the C06 step menu; messages are CRC-valid header-only MSM4/MSM7 frames through handler.GetMessage; both log levels. Oracle: SentAt and StartOfWeek parsed with the public DateLayout equal the model's instant and week start. Non-trivial = histories whose first observation differs from T; distinct = distinct (T, history)"
 	} else {
-		r.Rule = "start times T = Wednesday noon and, for each of GPS/Galileo, GLONASS and BeiDou, the roll-over instant -1 ms / +0 / +1 ms, each in UTC, Europe/London, Europe/Moscow and UTC+14; histories: every sequence of <=3 (quick) / <=4 (thorough) messages where each message belongs to one of the four constellations (MSM4 and MSM7 alternating) and its true time is the constellation's previous time advanced by one of {0, 1 ms, 1 s, 1 h, 1 d, 5 d 23:59:59.999, to 1 ms before the next roll-over, to the roll-over, to 1 ms after it} (first message: not earlier than T, same constellation week), or carries an illegal timestamp (7 days of ms; all ones; GLONASS day 7; GLONASS 24 h of ms); plus single-constellation histories of depth <=5 (quick) / <=7 (thorough); messages are CRC-valid header-only frames through handler.GetMessage at both log levels (implementation state is cloned at every branch). Oracle: SentAt and StartOfWeek parsed with the public DateLayout equal the true instant and week start of the reference time model; an illegal timestamp gives an error and no time and leaves later messages exact. Non-trivial = histories crossing at least one roll-over; distinct = distinct (T, history)"
+		r.Rule = "start times T = Wednesday noon and, for each of GPS/Galileo, GLONASS and BeiDou, the roll-over instant -1 ms / +0 / +1 ms, each in UTC, Europe/London, Europe/Moscow and UTC+14, plus mid-week and GLONASS roll-over start times in June 2013, July 2010 (civil Moscow time UTC+4) and at the 2019/2020 year end; histories: every sequence of <=3 (quick) / <=4 (thorough) messages where each message belongs to one of the four constellations (MSM4 and MSM7 alternating) and its true time is the constellation's previous time advanced by one of {0, 1 ms, 1 s, 1 h, 1 d, 5 d 23:59:59.999, to 1 ms before the next roll-over, to the roll-over, to 1 ms after it} (first message: not earlier than T, same constellation week), or carries an illegal timestamp (7 days of ms; all ones; GLONASS day 7; GLONASS 24 h of ms); plus single-constellation histories of depth <=5 (quick) / <=7 (thorough); messages are CRC-valid header-only frames through handler.GetMessage at both log levels (implementation state is cloned at every branch). Oracle: SentAt and StartOfWeek parsed with the public DateLayout equal the true instant and week start of the reference time model; an illegal timestamp gives an error and no time and leaves later messages exact. Non-trivial = histories crossing at least one roll-over; distinct = distinct (T, history)"
 	}
 	r.Assumptions = []string{"reference time model /verif/ref/gnsstime.go: GPS and Galileo weeks start Sunday 00:00:00 UTC - 18 s, BeiDou - 4 s, GLONASS day and week on UTC+3", "the precondition of the statement is enforced by construction: per constellation non-decreasing times, consecutive messages less than six days apart, first observation in T's constellation week" + map[bool]string{true: " (before, at or after T)", false: " and not before T"}[relaxed]}
 	const ms = time.Millisecond
 	wed := time.Date(2023, 5, 10, 12, 0, 0, 0, time.UTC)
+	// other weeks: civil Moscow time was UTC+4 in 2013 and in summer 2010 (the
+	// constellation clock is not the civil clock), and a week across a year end
+	otherWeeks := []time.Time{time.Date(2013, 6, 12, 12, 0, 0, 0, time.UTC), time.Date(2010, 7, 14, 12, 0, 0, 0, time.UTC), time.Date(2019, 12, 31, 12, 0, 0, 0, time.UTC)}
 	type start struct {
 		T time.Time
 		c ref.Constellation // constellation whose week edge T sits on (or GPS)
@@ -188,9 +191,22 @@ func timeCheck(r *ev.Run, relaxed bool) {
 				}
 			}
 		}
+		for _, w := range otherWeeks {
+			for _, c := range cons {
+				ws := c.WeekStart(w)
+				for i, T := range []time.Time{ws.Add(time.Second), w, ws.Add(7*24*time.Hour - time.Second)} {
+					starts = append(starts, start{T.In(zones[i%len(zones)]), c})
+				}
+			}
+		}
 	} else {
 		for _, z := range zones {
 			starts = append(starts, start{wed.In(z), ref.GPS})
+		}
+		for i, w := range otherWeeks {
+			starts = append(starts, start{w.In(zones[i%len(zones)]), ref.GPS})
+			ro := ref.Glonass.NextRollover(w)
+			starts = append(starts, start{ro.Add(-ms).In(zones[(i+1)%len(zones)]), ref.Glonass})
 		}
 		for _, c := range []ref.Constellation{ref.GPS, ref.Glonass, ref.Beidou} {
 			ro := c.NextRollover(wed)
@@ -292,7 +308,7 @@ func timeCheck(r *ev.Run, relaxed bool) {
 					we := ws.Add(7 * 24 * time.Hour)
 					var first []time.Time
 					if relaxed {
-						first = []time.Time{ws, ws.Add(ms), wed, we.Add(-ms), Tms.Add(-time.Hour), Tms.Add(-time.Second), Tms.Add(-ms), Tms, Tms.Add(ms), Tms.Add(time.Hour)}
+						first = []time.Time{ws, ws.Add(ms), ws.Add(84 * time.Hour), we.Add(-ms), Tms.Add(-time.Hour), Tms.Add(-time.Second), Tms.Add(-ms), Tms, Tms.Add(ms), Tms.Add(time.Hour)}
 					} else {
 						first = []time.Time{Tms, Tms.Add(ms), Tms.Add(time.Second), Tms.Add(time.Hour), we.Add(-ms)}
 					}
